@@ -60,6 +60,8 @@ static void run_scalar(Ctx &c) {
         for (long q = 0; q < k; ++q) { auto v = std::make_shared<std::vector<V> >(n); for (long i = 0; i < n; ++i) (*v)[i] = mk<V>::num(c.r.range(-4, 4), c.r.range(-2, 2)); vs.push_back(v); cf.push_back((S)c.r.range(-3, 3)); }
         out = poisoned(); be::lin_comb((size_t)k, cf, vs, S(0), out);
         for (long i = 0; i < n; ++i) { V s = V(); for (long q = 0; q < k; ++q) s += cf[q] * (*vs[q])[i]; if (!eq(out[i], s)) { c.fail("lin_comb", "alpha-zero-ignores-output", fmt("element %ld of %ld vectors", i, k)); break; } }
+        S bt = (S)c.p.get("beta"); out = w; be::lin_comb((size_t)k, cf, vs, bt, out);
+        for (long i = 0; i < n; ++i) { V s = bt * w[i]; for (long q = 0; q < k; ++q) s += cf[q] * (*vs[q])[i]; if (!eq(out[i], s)) { c.fail("lin_comb", "formula", fmt("element %ld of %ld vectors, alpha %ld", i, k, c.p.get("beta"))); break; } }
     }
     { // inner product: conjugate-linear in the second argument
         auto ip = be::inner_product(y, z); decltype(ip) want = decltype(ip)();
@@ -106,6 +108,28 @@ static void run_block(Ctx &c) {
     be::axpby(al, y, 0.0, o3); for (long i = 0; i < n; ++i) { R w = al * y[i]; if (o3[i](0) != w(0) || o3[i](1) != w(1)) { c.fail("axpby", "b-zero-ignores-output", fmt("block %ld", i)); break; } }
     double ip = be::inner_product(y, y), want = 0; for (long i = 0; i < n; ++i) want += y[i](0) * y[i](0) + y[i](1) * y[i](1);
     if (ip != want) c.fail("inner_product", "formula", "block vectors");
+    {   // remaining vector primitives on block vectors; vmul with a block diagonal, with block and with scalar vectors
+        std::vector<R> z(n), wv(n), o4(n); std::vector<B> dg(n); std::vector<double> zs(2 * n), o5(2 * n);
+        for (long i = 0; i < n; ++i) for (int a = 0; a < 2; ++a) { zs[2*i+a] = z[i](a) = (double)c.r.range(-8, 8); wv[i](a) = (double)c.r.range(-8, 8); for (int b = 0; b < 2; ++b) dg[i](a, b) = (double)c.r.range(-3, 3); }
+        auto poisonR = [&](std::vector<R> &o) { for (long i = 0; i < n; ++i) for (int a = 0; a < 2; ++a) o[i](a) = mk<double>::poison((int)(c.poison + i + a) % 3); };
+        auto sameR = [&](const R &p, const R &q) { return p(0) == q(0) && p(1) == q(1); };
+        poisonR(o4); be::axpbypcz(al, y, bt, z, 0.0, o4); for (long i = 0; i < n; ++i) if (!sameR(o4[i], al * y[i] + bt * z[i])) { c.fail("axpbypcz", "c-zero-ignores-output", fmt("block %ld", i)); break; }
+        o4 = wv; be::axpbypcz(al, y, bt, z, 2.0, o4); for (long i = 0; i < n; ++i) if (!sameR(o4[i], al * y[i] + bt * z[i] + 2.0 * wv[i])) { c.fail("axpbypcz", "formula", fmt("block %ld", i)); break; }
+        o4 = z; be::axpby(al, y, bt, o4); for (long i = 0; i < n; ++i) if (!sameR(o4[i], al * y[i] + bt * z[i])) { c.fail("axpby", "formula", fmt("block %ld", i)); break; }
+        poisonR(o4); be::vmul(al, dg, z, 0.0, o4); for (long i = 0; i < n; ++i) if (!sameR(o4[i], al * dg[i] * z[i])) { c.fail("vmul", "b-zero-ignores-output", fmt("block %ld", i)); break; }
+        std::vector<R> o6 = wv; be::vmul(al, dg, z, bt, o6); for (long i = 0; i < n; ++i) if (!sameR(o6[i], al * dg[i] * z[i] + bt * wv[i])) { c.fail("vmul", "formula", fmt("block %ld", i)); break; }
+        for (long i = 0; i < 2 * n; ++i) o5[i] = mk<double>::poison((int)i % 3);
+        be::vmul(al, dg, zs, 0.0, o5); for (long i = 0; i < n; ++i) if (o5[2*i] != o4[i](0) || o5[2*i+1] != o4[i](1)) { c.fail("vmul", "scalar-vectors-for-block-vectors", fmt("block %ld", i)); break; }
+        poisonR(o4); be::copy(y, o4); for (long i = 0; i < n; ++i) if (!sameR(o4[i], y[i])) { c.fail("copy", "formula", fmt("block %ld", i)); break; }
+        poisonR(o4); be::clear(o4); for (long i = 0; i < n; ++i) if (o4[i](0) != 0 || o4[i](1) != 0) { c.fail("clear", "formula", fmt("block %ld", i)); break; }
+        std::vector<std::shared_ptr<std::vector<R> > > vs; std::vector<double> cf; long k = 1 + c.p.get("lc") % 4;
+        for (long q = 0; q < k; ++q) { auto v = std::make_shared<std::vector<R> >(n); for (long i = 0; i < n; ++i) for (int a = 0; a < 2; ++a) (*v)[i](a) = (double)c.r.range(-4, 4); vs.push_back(v); cf.push_back((double)c.r.range(-3, 3)); }
+        poisonR(o4); be::lin_comb((size_t)k, cf, vs, 0.0, o4);
+        for (long i = 0; i < n; ++i) { R s2 = amgcl::math::zero<R>(); for (long q = 0; q < k; ++q) s2 += cf[q] * (*vs[q])[i]; if (!sameR(o4[i], s2)) { c.fail("lin_comb", "alpha-zero-ignores-output", fmt("block %ld of %ld vectors", i, k)); break; } }
+        o4 = wv; be::lin_comb((size_t)k, cf, vs, bt, o4);
+        for (long i = 0; i < n; ++i) { R s2 = bt * wv[i]; for (long q = 0; q < k; ++q) s2 += cf[q] * (*vs[q])[i]; if (!sameR(o4[i], s2)) { c.fail("lin_comb", "formula", fmt("block %ld of %ld vectors", i, k)); break; } }
+        c.res.counts["block_vector_primitives"]++;
+    }
     // hybrid backend: block matrix, scalar vectors
     { typedef be::builtin_hybrid<B> HB; auto As = std::make_shared<be::crs<double> >();
       // scalar matrix equal to the block matrix
